@@ -49,8 +49,13 @@ fn history_body(src: &mut Src, st: &mut Stats) -> CaseResult {
             }
             2 => gen_sentence(src, st, 3),
             3 => {
-                let a = gen_sentence(src, st, 2).unwrap_or_else(|| "a".into());
-                Some(mutate(&a, "b", src).0)
+                if src.flip() {
+                    let a = gen_sentence(src, st, 2).unwrap_or_else(|| "a".into());
+                    Some(mutate(&a, "b", src).0)
+                } else {
+                    // fails in the lexer after some tokens, in the parser, or at once
+                    Some(crate::syn::gen_failing_text(src, st))
+                }
             }
             4 if src.flip() => Some(
                 // no data references at all: the result may still depend on the document (a multi-select on null is null)
